@@ -70,11 +70,18 @@ func execBuild(c *Case) (r workerResult) {
 				kinds = append(kinds, e)
 			}
 		}
-		opts = append(opts, core.WithBannedDirectives(kinds...))
+		if c.ID%2 == 0 {
+			opts = append(opts, core.WithBannedDirectives(kinds...))
+		} else { // the same set, given as one option per kind
+			for _, k := range kinds {
+				opts = append(opts, core.WithBannedDirectives(k))
+			}
+		}
 	}
 	j, je := kit.NewJapi(rootAbs, opts...)
 	if je != nil {
-		return workerResult{Out: renderBuildErr(dp, c, je)}
+		// the canonical form hides quoted parts of the message; determinism (C06) is about the exact text
+		return workerResult{Out: renderBuildErr(dp, c, je) + " raw=" + sha([]byte(strings.ReplaceAll(je.Error(), dp.projDir, "")))}
 	}
 	seq := "jjiopt"
 	if len(c.Args) > 2 && c.Args[2] != "" {
@@ -250,11 +257,66 @@ func shapeMonitor(a *buildAux) string {
 		}
 	}
 	tags, _ := doc["tags"].(jobj)
-	for n, v := range tags {
-		t, _ := v.(jobj)
-		for _, f := range []string{"name", "title", "interactionGroups"} {
-			if _, ok := t[f]; !ok {
-				return fmt.Sprintf("tag %q lacks %q", n, f)
+	var chkTags func(tags jobj) string
+	chkTags = func(tags jobj) string {
+		for n, v := range tags {
+			t, _ := v.(jobj)
+			for _, f := range []string{"name", "title", "interactionGroups"} {
+				if _, ok := t[f]; !ok {
+					return fmt.Sprintf("tag %q lacks %q", n, f)
+				}
+			}
+			if _, ok := t["name"].(string); !ok {
+				return fmt.Sprintf("tag %q: name is not a string", n)
+			}
+			groups, ok := t["interactionGroups"].([]any)
+			if !ok {
+				return fmt.Sprintf("tag %q: interactionGroups is not an array (%v)", n, t["interactionGroups"])
+			}
+			for _, g := range groups {
+				gm, _ := g.(jobj)
+				if _, ok := gm["interactions"].([]any); !ok {
+					return fmt.Sprintf("tag %q: an interaction group without an interactions array", n)
+				}
+				if _, ok := gm["protocol"].(string); !ok {
+					return fmt.Sprintf("tag %q: an interaction group without a protocol", n)
+				}
+			}
+			if ch, ok := t["children"]; ok {
+				cm, ok := ch.(jobj)
+				if !ok {
+					return fmt.Sprintf("tag %q: children is not an object", n)
+				}
+				if m := chkTags(cm); m != "" {
+					return m
+				}
+			}
+		}
+		return ""
+	}
+	if m := chkTags(tags); m != "" {
+		return m
+	}
+	for id, v := range inter {
+		it, _ := v.(jobj)
+		if _, ok := it["tags"].([]any); !ok {
+			return fmt.Sprintf("interaction %q: tags is not an array", id)
+		}
+		if r, ok := it["responses"]; ok {
+			if _, ok := r.([]any); !ok {
+				return fmt.Sprintf("interaction %q: responses is not an array", id)
+			}
+		}
+		for _, f := range []string{"id", "protocol", "path"} {
+			if _, ok := it[f].(string); !ok {
+				return fmt.Sprintf("interaction %q: %s is not a string", id, f)
+			}
+		}
+	}
+	for _, sec := range []string{"tags", "interactions", "servers", "userTypes", "userEnums"} {
+		if v, ok := doc[sec]; ok {
+			if _, ok := v.(jobj); !ok {
+				return fmt.Sprintf("section %s is not an object", sec)
 			}
 		}
 	}
